@@ -95,20 +95,56 @@ def np_input(node) -> Val:
                             p.get("scale", 0))
 
 
-def eval_np(spec, force_dtypes=None, upto=None, alt=None) -> list[Val | None]:
+def _np_fncall(spec, node, args, fns) -> Val:
+    """NumPy value of a function call node: the callee's body evaluated with
+    its parameters bound to the argument values."""
+    fn = fns[node["p"]["fn"]]
+    body = fn["spec"]
+    params = [n["p"]["name"] for n in body["nodes"] if n["op"] == "placeholder"]
+    bind = {}
+    names = node["p"].get("kw") or [None] * len(args)
+    pos = 0
+    for a, nm in zip(args, names):
+        if nm is None:
+            bind[params[pos]] = a
+            pos += 1
+        else:
+            bind[nm] = a
+    for n in body["nodes"]:
+        if n["op"] == "placeholder":
+            v = bind.get(n["p"]["name"])
+            if v is None:
+                raise npref.NpReject("missing argument")
+            if tuple(v.a.shape) != tuple(n["p"]["shape"]) or str(
+                    v.a.dtype) != n["p"]["dtype"]:
+                raise npref.NpReject("argument shape/dtype mismatch")
+    vals = eval_np(body, bind=bind, fns=fns)
+    return Val({k: vals[i] for k, i in body["outputs"]})
+
+
+def eval_np(spec, force_dtypes=None, upto=None, alt=None, bind=None,
+            fns=None) -> list[Val | None]:
     """NumPy value of every node.  *force_dtypes*: index -> dtype the pytato
     expression declares (None entries / missing: model table).  *alt*: index ->
     callable(args) -> Val replacing the semantics of single nodes (used only
     to decide whether a failure is *exactly* a listed known finding)."""
     vals: list[Val | None] = []
+    fns = spec.get("fns") if fns is None else fns
     for i, node in enumerate(spec["nodes"]):
         if upto is not None and i > upto:
             break
         op = node["op"]
         if op in INPUT_OPS:
-            vals.append(np_input(node))
+            if bind is not None and op == "placeholder" \
+                    and node["p"]["name"] in bind:
+                vals.append(bind[node["p"]["name"]])
+            else:
+                vals.append(np_input(node))
             continue
         args = [decode_arg(a, vals) for a in node.get("args", [])]
+        if op == "fncall":
+            vals.append(_np_fncall(spec, node, args, fns))
+            continue
         fd = None
         if force_dtypes is not None:
             fd = force_dtypes.get(i) if isinstance(force_dtypes, dict) \
@@ -361,13 +397,72 @@ class PtProgram:
         return pt.make_dict_of_named_arrays(dict(self.outputs))
 
 
-def build_pt(spec, *, with_tags: bool = True, output_order=None) -> PtProgram:
+def make_py_function(fnspec, fns, mode: str):
+    """The Python function a user would write for a callee (its body built
+    with pytato on whatever arrays it is handed)."""
+    body = fnspec["spec"]
+    params = [n["p"]["name"] for n in body["nodes"] if n["op"] == "placeholder"]
+
+    def f(*args, **kwargs):
+        bound = dict(zip(params, args))
+        bound.update(kwargs)
+        prog = build_pt(body, bind=bound, fns=fns, mode=mode)
+        outs = [(k, prog.outputs[k]) for k, _ in body["outputs"]]
+        kind = fnspec.get("ret", "dict")
+        if kind == "array":
+            return outs[0][1]
+        if kind == "tuple":
+            return tuple(v for _, v in outs)
+        return {k: v for k, v in outs}
+    f.__name__ = fnspec.get("ident") or "f"
+    f.pvf_params = params
+    f.pvf_keys = [k for k, _ in body["outputs"]]
+    return f
+
+
+def _pt_fncall(node, args, fns, mode: str):
+    """-> dict key -> array.  mode 'direct': call the Python function;
+    'traced': pt.trace_call."""
+    import pytato as pt
+    fnspec = fns[node["p"]["fn"]]
+    f = make_py_function(fnspec, fns, mode)
+    names = node["p"].get("kw") or [None] * len(args)
+    pos = [a for a, nm in zip(args, names) if nm is None]
+    kw = {nm: a for a, nm in zip(args, names) if nm is not None}
+    if mode == "direct":
+        out = f(*pos, **kw)
+    else:
+        ident = fnspec.get("ident")
+        if node["p"].get("identifier", "guess") == "guess":
+            out = pt.trace_call(f, *pos, **kw)
+        else:
+            out = pt.trace_call(f, *pos, identifier=ident, **kw)
+    keys = f.pvf_keys
+    kind = fnspec.get("ret", "dict")
+    if kind == "array":
+        return {keys[0]: out}
+    if kind == "tuple":
+        return dict(zip(keys, out))
+    return dict(out)
+
+
+def build_pt(spec, *, with_tags: bool = True, output_order=None, bind=None,
+             fns=None, mode: str = "traced") -> PtProgram:
     env: list[Any] = []
     cache: dict = {}
+    fns = spec.get("fns") if fns is None else fns
     for node in spec["nodes"]:
         op = node["op"]
         if op in INPUT_OPS:
+            if bind is not None and op == "placeholder" \
+                    and node["p"]["name"] in bind:
+                ary = bind[node["p"]["name"]]
+                env.append(ary)
+                continue
             ary = pt_input(node, env, cache)
+        elif op == "fncall":
+            args = [decode_arg(a, env) for a in node.get("args", [])]
+            ary = _pt_fncall(node, args, fns, mode)
         else:
             args = [decode_arg(a, env) for a in node.get("args", [])]
             ary = apply_pt(op, args, node.get("p"))
